@@ -84,7 +84,9 @@ SCENARIOS = [
 ]
 
 
-PREFIX_CMDS = ["f<", "<<", "i<<esc>", "A a<b<esc>", "i\\\\<esc>", "F<", "i<<<<esc>0", "t<", "A<<esc>", "i\\<<esc>", "rx", "i<=<esc>", ">>", "i\\<esc"]
+PREFIX_CMDS = ["f<", "<<", "i<<esc>", "A a<b<esc>", "i\\\\<esc>", "F<", "i<<<<esc>0", "t<", "A<<esc>", "i\\<<esc>", "rx", "i<=<esc>", ">>", "i\\<esc",
+               # a key string that ends in a backslash (one, or an odd run): the escape ends with the string
+               "A\\", "ix\\", "A\\\\\\", "f\\", "A\\", "ix\\"]
 
 
 def has_alias(t):
